@@ -17,7 +17,7 @@ def run(run):
     account_mc(run, res, ["Log", "Nice", "Clear", "Dump", "Read"])
     exe = build_driver(run, "mlog_drv", "mlog_drv.c", ["librfn/mlog.c", "librfn/string.c", "librfn/util.c"])
     full = 1 if run.thorough() else 0
-    sc = "Sys 773 %d\nFold %d\nNiceFar\nKinds\nRandom %d %d\nRandom %d %d\n" % (full, full, run.seed, 20000 if full else 4000, run.seed + 1, 20000 if full else 3000)
+    sc = "Sys 773 %d\nFold %d\nNiceFar\nKinds\nNestedNice\nRandom %d %d\nRandom %d %d\n" % (full, full, run.seed, 20000 if full else 4000, run.seed + 1, 20000 if full else 3000)
     sc += "Unread 0\n"            # 2^31 + 261 messages that nobody reads, from just below the counter's fold point
     if full:
         sc += "Unread 1\n"        # 2^32 + 5 messages from a clear, no hook
